@@ -1116,7 +1116,8 @@ class PySym:
         elif isinstance(t, ast.Attribute):
             env[ast.unparse(t)] = v
         # `(a, self.b) = v`: t = v; a = t[0]; self.b = t[1] (v was evaluated before any element is stored)
-        elif isinstance(t, (ast.Tuple, ast.List)) and all(isinstance(x, (ast.Name, ast.Attribute)) for x in t.elts):
+        elif isinstance(t, (ast.Tuple, ast.List)) and all(isinstance(x, (ast.Name, ast.Attribute, ast.Tuple, ast.List)) for x in t.elts):
+            # nested targets `(a, (b, c)) = v` are split element by element (each element is assigned recursively)
             if v[0] == "tuple":
                 if len(v) - 1 != len(t.elts):
                     raise AnalysisError("forward substitution: tuple of %d values unpacked into %d names" % (
@@ -2649,7 +2650,76 @@ def total_on_domain(L, rule, res, fd, func="HoppingParams.fn2gsm_time"):
     return drop_raises(res)
 
 
-def py_decomposition(L, repo, rule):
+PY_WALKS = (("consecutive frames from the first call on (every multiple of 26 and of 51 below 130)", list(range(0, 130))),
+            ("consecutive frames, the first call not the frame after the initial one", list(range(24, 56))),
+            ("consecutive frames across the hyperframe wrap (2715646, 2715647, 0, 1, ...), then on across a superframe boundary",
+             [HYPERFRAME - 2, HYPERFRAME - 1] + list(range(0, 3)) + list(range(1324, 1329))),
+            ("a frame repeated, then the consecutive one", [1325, 1325, 1326, 1326, 1327, HYPERFRAME - 1, HYPERFRAME - 1, 0, 0, 1]))
+
+
+def py_history(L, repo, mod, ci, fd, param, kept, rule, hopping_only):
+    """C19.R4 (C07.R4 when called for the hopping rule), Python sibling of r4_stateless: clause "the Python toolkit derives
+    the same T1, T2, T3 as the C code" (and the decomposition clause) for a fn2gsm_time() whose forward-substituted result
+    reads something besides its argument (`kept`: a class attribute holding the last result, a module-level cache).
+    gsm_fn2gsmtime is a function of FN alone, so the Python result must be the decomposition of the call's own FN for every
+    history of calls.  Decided by folding (consteval: no repository code runs) the method body on call sequences starting
+    from the state the class body / module leaves, every attribute the body stores carried to the next call: random access
+    around the carry points, the steps of the running time for every delta of the property, consecutive walks across the
+    multiples of 26, 51, 1326 and the wrap 2715646 -> 2715647 -> 0 -> 1.  A call that returns something else is a
+    counterexample inside the property's domain (a legal history), reported with the pair of calls.  History dependence
+    that the sequences do not refute is not proven harmless: no verdict (AnalysisError)."""
+    rule = rule.split(".")[0] + ".R4"
+    func = "HoppingParams.fn2gsm_time"
+    names = ", ".join("`%s`" % k for k in kept)
+    comps = (("T1 mod 64", lambda fn: (fn // 1326) % 64, lambda v: v % 64), ("T2", lambda fn: fn % 26, None), ("T3", lambda fn: fn % 51, None)) \
+        if hopping_only else (("T1", lambda fn: fn // 1326, None), ("T2", lambda fn: fn % 26, None), ("T3", lambda fn: fn % 51, None),
+                              ("TC", lambda fn: (fn // 51) % 8, None))
+    skip = (Unknown, TypeError, ValueError, ArithmeticError, LookupError, AttributeError, RecursionError)
+    total, bad, skipped = 0, {}, None
+    try:
+        for what, seq in list(call_sequences()) + list(PY_WALKS):
+            state, prev = {}, None
+            for fn in seq:
+                ev = Ev(repo, mod, env=dict(state, **{param: fn}), self_cls=ci)
+                try:
+                    r = ev.run_block(fd.body)
+                except Raised as e:
+                    raise AnalysisError("%s raises %s for FN = %d%s; the call sequences cannot be folded" % (
+                        func, e.cls, fn, " after FN = %d" % prev if prev is not None else ""))
+                state = {k: v for k, v in ev.env.items() if isinstance(k, str) and "." in k}
+                v = r[1] if isinstance(r, tuple) and len(r) == 2 and r[0] == "ret" else None
+                total += 1
+                if not (isinstance(v, (tuple, list)) and len(v) == 4 and all(isinstance(x, int) for x in v)):
+                    raise Unknown("fn2gsm_time(%d) folds to %r, not to four integers" % (fn, v))
+                diffs = ["%s = %d returned, decomposition of FN: %d" % (nm, v[i], w(fn)) for i, (nm, w, red) in enumerate(comps)
+                         if (red(v[i]) if red else v[i]) != w(fn)]
+                if diffs:
+                    rec = bad.setdefault(what, [0, None])
+                    rec[0] += 1
+                    if rec[1] is None:
+                        rec[1] = "fn2gsm_time(%d) %s: %s" % (fn, "after fn2gsm_time(%d)" % prev if prev is not None else
+                                                            "as the first call", "; ".join(diffs))
+                prev = fn
+    except skip as e:
+        skipped = "the method leaves the evaluator's vocabulary: %s" % e
+    L.extra["py_decomposition_call_sequences"] = {"state": kept, "calls_folded": total,
+                                                  "status": "skipped: %s" % skipped if skipped else "complete"}
+    for what in sorted(bad):
+        k, first = bad[what]
+        L.ob(rule, F_GSM, func,
+             "fn2gsm_time() reads %s besides its argument: called in a sequence (%s) every call returns the decomposition of its own "
+             "frame number (sequences folded from the initial state, the stored attributes carried from call to call)" % (names, what),
+             ", ".join(nm for nm, _, _ in comps) + " of each call's own FN (as gsm_fn2gsmtime derives them)",
+             "%s; %d calls of these sequences differ (%d calls folded in all)" % (first, k, total), False, fd.lineno)
+    raise AnalysisError("%s reads %s besides its argument%s; %s" % (
+        func, names, " (%s)" % skipped if skipped else "",
+        "the call sequences above refute that every call returns the decomposition of its own frame number; the per-component "
+        "formula rules are not applicable to a history-dependent result" if bad else
+        "%d calls in witness sequences do not refute that every call returns the decomposition of its own frame number, and no "
+        "proof of it is attempted; unclassifiable" % total))
+
+
+def py_decomposition(L, repo, rule, hopping_only=False):
     ci, fd = repo.need_method("gsm_shared", "HoppingParams", "fn2gsm_time")
     L.unit(F_GSM)
     L.fn(F_GSM, "HoppingParams.fn2gsm_time")
@@ -2663,6 +2733,9 @@ def py_decomposition(L, repo, rule):
     sym = PySym(repo, mod, ci)
     res = sym.result(sym.run(fd))
     res = renorm(res, lambda t: V("FN") if t == V(names[0]) else None)
+    kept = sorted({x[1] for x in subterms(res) if x[0] == "v"} - {"FN", "None"})
+    if kept:
+        py_history(L, repo, mod, ci, fd, names[0], kept, rule, hopping_only)
     # arms that no frame number of the hyperframe can take (a range assertion, a defensive raise) are decided by intervals
     res = prune(res, {V("FN"): (0, HYPERFRAME - 1)})
     res = total_on_domain(L, rule, res, fd)
@@ -2699,7 +2772,7 @@ def r1_decomposition(L, repo, rule="C19.R1", hopping_only=False):
     hopping_only: compare only what TS 45.002 6.2.3 consumes (T1 mod 64, T2, T3)."""
     want = spec_decomposition(V("FN"))
     tu, f, cc, ndiv = c_decomposition(L, rule)
-    fd, pc = py_decomposition(L, repo, rule)
+    fd, pc = py_decomposition(L, repo, rule, hopping_only)
     n = 0
     L.require(rule, F_UTILS, "gsm_fn2gsmtime", "time->fn = FN (the frame number given)", "FN", show(cc["fn"]), line=tu.line(f))
     if hopping_only:
